@@ -85,8 +85,19 @@ def gen_cases(rng, tier):
         feats = [gen_feat(rng, j) for j in range(rng.choice([1, 2, 3, 4, 6, 8]))]
         spec = SPECS[i % len(SPECS)]
         strat = "error" if rng.random() < 0.7 else "create_unique"
-        cases.append({"feats": feats, "spec": spec, "strategy": strat,
-                      "absent": [rng.choice(["nope", "", "f0 ", "F0", "gene_9", "exon_0"]) for _ in range(2)]})
+        case = {"feats": feats, "spec": spec, "strategy": strat,
+                "absent": [rng.choice(["nope", "", "f0 ", "F0", "gene_9", "exon_0"]) for _ in range(2)]}
+        if i % 3 == 2 and all(vs for f in feats for _, vs in f["attrs"]) and all(f["attrs"] for f in feats):
+            # the same through a file: a key with several values is written once per value on its line (ID=a;Name=n;ID=b) while
+            # the other lines - and so the file's dialect - use comma lists: it still has all its values
+            case["text"] = True
+            for f in feats:
+                multi = [k for k, vs in f["attrs"] if len(vs) > 1]
+                if multi and rng.random() < 0.7:
+                    first = ["%s=%s" % (k, vs[0]) for k, vs in f["attrs"]]
+                    rest = ["%s=%s" % (k, v) for k, vs in f["attrs"] for v in vs[1:]]
+                    f["rawcol"] = ";".join(first + rest)
+        cases.append(case)
     # the GTF importer: its default id_spec is a dict (gene -> gene_id, transcript -> transcript_id); a dict given by the
     # caller is used as it stands
     for i in range(n // 5):
@@ -129,7 +140,7 @@ def run_impl(c):
         st, db = imp.run_create(c["feats"], fmt="gtf", id_spec=imp.spec_py(c["spec"]), merge_strategy=c["strategy"],
                                 disable_infer_genes=True, disable_infer_transcripts=True)
     else:
-        st, db = imp.run_create(c["feats"], id_spec=imp.spec_py(c["spec"]), merge_strategy=c["strategy"])
+        st, db = imp.run_create(c["feats"], text=bool(c.get("text")), id_spec=imp.spec_py(c["spec"]), merge_strategy=c["strategy"])
     if st == "err":
         return {"tables": ["err", db], "lks": []}
     t = imp.dump_tables(db.conn)
